@@ -3,6 +3,7 @@
 package connsim
 
 import (
+	"bytes"
 	"errors"
 	"fmt"
 	"io"
@@ -72,19 +73,22 @@ type ScriptConn struct {
 	// (current chunk exhausted): delivered = bytes handed out so far, out = bytes written so far.
 	OnBlock func(delivered int, out []byte)
 
-	mu        sync.Mutex
-	cond      *sync.Cond
-	queue     [][]byte
-	cur       []byte
-	readEOF   bool // no more input will come
-	eofSeen   bool // EOF has been returned to the server
-	closed    bool // closed by the server
-	waiting   bool // server is blocked in Read with nothing queued
-	wblocked  bool // server is blocked in Write
-	delivered int
-	out       []byte
-	closes    int
-	reads     int
+	mu       sync.Mutex
+	cond     *sync.Cond
+	queue    [][]byte
+	cur      []byte
+	readEOF  bool // no more input will come
+	eofSeen  bool // EOF has been returned to the server
+	closed   bool // closed by the server
+	waiting  bool // server is blocked in Read with nothing queued
+	wblocked bool // server is blocked in Write
+	// Mutated is set when the bytes handed to Write changed while the write was in progress (a blocked write):
+	// what the peer receives is then not what was serialized for it.
+	mutBefore, mutAfter []byte
+	delivered           int
+	out                 []byte
+	closes              int
+	reads               int
 	// incremental frame decoding of out
 	frames    []resp.Value
 	frameEnds []int
@@ -210,12 +214,19 @@ func (c *ScriptConn) blockedLocked() {
 func (c *ScriptConn) Write(p []byte) (int, error) {
 	c.mu.Lock()
 	defer c.mu.Unlock()
+	var snap []byte
 	for c.BlockWrites && !c.closed {
+		if snap == nil {
+			snap = append([]byte{}, p...)
+		}
 		c.wblocked = true
 		c.cond.Broadcast()
 		c.cond.Wait()
 	}
 	c.wblocked = false
+	if snap != nil && !bytes.Equal(snap, p) && c.mutBefore == nil {
+		c.mutBefore, c.mutAfter = snap, append([]byte{}, p...)
+	}
 	if c.closed {
 		return 0, net.ErrClosed
 	}
@@ -280,6 +291,13 @@ func (c *ScriptConn) WaitWriteBlocked(timeout time.Duration) bool {
 		c.cond.Wait()
 	}
 	return true
+}
+
+// Mutated reports whether the buffer of a write in progress was modified, with the bytes before and after.
+func (c *ScriptConn) Mutated() (before, after []byte, ok bool) {
+	c.mu.Lock()
+	defer c.mu.Unlock()
+	return c.mutBefore, c.mutAfter, c.mutBefore != nil
 }
 
 // Out returns a copy of everything written so far.
